@@ -54,6 +54,15 @@ func genOrigin(rt *rapid.T, label string) string {
 	if s == "" {
 		s = "x"
 	}
+	// origins are not bounded by any buffer size (the add-checkpoint body cap of 16 KiB is
+	// the only limit): some of several KiB, sharing a prefix of exactly 4096 bytes with
+	// each other
+	if vlib.Pct(rt, 6, label+"_long") {
+		n := rapid.SampledFrom([]int{4090, 4096, 4097, 5000, 9000}).Draw(rt, label+"_len")
+		if n > len(s) {
+			s = fmt.Sprintf("%s{%s*%d}", s, rapid.SampledFrom([]string{"a", "b"}).Draw(rt, label+"_fill"), n-len(s))
+		}
+	}
 	// origins are opaque strings: surrounding whitespace is part of the origin on every
 	// interface or on none
 	switch vlib.Uniform(rt, 8, label+"_pad") {
@@ -318,13 +327,37 @@ func identViaMain(c *IdentCase) error {
 	return nil
 }
 
+var repeatRE = regexp.MustCompile(`\{(.)\*(\d+)\}`)
+
+// expanded replaces the compact spelling {c*N} (N times the character c) in origins, so
+// that origins of several KiB do not bloat cases and evidence.
+func (c *IdentCase) expanded() *IdentCase {
+	d := *c
+	d.Origins = nil
+	for _, o := range c.Origins {
+		d.Origins = append(d.Origins, repeatRE.ReplaceAllStringFunc(o, func(m string) string {
+			sm := repeatRE.FindStringSubmatch(m)
+			n, _ := strconv.Atoi(sm[2])
+			return strings.Repeat(sm[1], n)
+		}))
+	}
+	return &d
+}
+
 func runIdent(c *IdentCase) (bool, []string, error) {
+	c = c.expanded()
 	cls := "static"
 	if c.ViaMain {
 		cls = "via-main"
 	}
 	if c.Dup >= 0 {
 		cls += "-duplicate"
+	}
+	for _, o := range c.Origins {
+		if len(o) > 4096 {
+			cls += "-long-origin"
+			break
+		}
 	}
 	if err := identStatic(c); err != nil {
 		return true, []string{cls}, err
@@ -343,11 +376,12 @@ func genIdent(rt *rapid.T, viaMain bool) *IdentCase {
 	seen := map[string]bool{}
 	for i := 0; i < n; i++ {
 		o := genOrigin(rt, "origin")
-		for n := 0; seen[o]; n++ {
+		full := func(o string) string { return (&IdentCase{Origins: []string{o}}).expanded().Origins[0] }
+		for n := 0; seen[full(o)]; n++ {
 			// construct a fresh origin rather than rejecting; make sure the constructed one is new too
 			o = o + "~" + strconv.Itoa(i+n)
 		}
-		seen[o] = true
+		seen[full(o)] = true
 		c.Origins = append(c.Origins, o)
 		c.KeyIdx = append(c.KeyIdx, rapid.IntRange(0, 2).Draw(rt, "key"))
 	}
@@ -362,7 +396,7 @@ func identHash(c *IdentCase) string {
 	return fmt.Sprintf("%x", vlib.LeafHash(b))[:16]
 }
 
-const ruleC12id = "generated configurations of 1-5 logs (origins assembled from parts with spaces, slashes, non-ASCII, URL metacharacters, shared prefixes; shared keys; 30% with a duplicated origin) pushed through the real YAML schema, AsLogMap and config.NewLog (static part) and through the assembled service started by Main with a stub bastion (TLS/h2 reverse connection), a stub distributor and the HTTP API (via-main part): the ID accepted/used on every interface must be one string per origin and duplicates must be refused at start-up; non-trivial = any; distinct by case hash"
+const ruleC12id = "generated configurations of 1-5 logs (origins assembled from parts with spaces, slashes, non-ASCII, URL metacharacters, shared prefixes, 6% several KiB long; shared keys; 30% with a duplicated origin) pushed through the real YAML schema, AsLogMap and config.NewLog (static part) and through the assembled service started by Main with a stub bastion (TLS/h2 reverse connection), a stub distributor and the HTTP API (via-main part): the ID accepted/used on every interface must be one string per origin and duplicates must be refused at start-up; non-trivial = any; distinct by case hash"
 
 func TestC12Static(t *testing.T) {
 	st := vlib.StatsFor("C12", "id-static", ruleC12id)
@@ -393,11 +427,13 @@ func TestC12ViaMain(t *testing.T) {
 // TestC12DupMain: fixed configurations with a duplicated origin must make Main itself
 // refuse to start (cheap when it does: Main returns at once).
 func TestC12DupMain(t *testing.T) {
-	st := vlib.StatsFor("C12", "id-dup-main", "fixed configurations in which two entries share an origin (same key / other key, first / last entry), started through Main: it must return an error instead of serving; non-trivial = any")
+	st := vlib.StatsFor("C12", "id-dup-main", "fixed configurations started through Main: two entries sharing an origin (same key / other key, first / last entry) must make it return an error instead of serving; one configuration without duplicates whose origins are 4096 and 5012 bytes long (one a prefix of the other) must be served under the right IDs on every interface; non-trivial = any")
 	for _, c := range []*IdentCase{
 		{Origins: []string{"example.com/log"}, KeyIdx: []int{0}, Dup: 0, ViaMain: true},
 		{Origins: []string{"example.com/log", "example.com/log2", "rekor.sigstore.dev - 1193050959916656506"}, KeyIdx: []int{0, 1, 1}, Dup: 2, ViaMain: true},
 		{Origins: []string{"a", "A", "лог/α"}, KeyIdx: []int{0, 0, 2}, Dup: 0, ViaMain: true},
+		// no duplicate: origins longer than any line buffer, one exactly the 4096-byte prefix of another
+		{Origins: []string{"example.com/{a*5000}", "example.com/{a*4084}", "example.com/log"}, KeyIdx: []int{0, 0, 1}, Dup: -1, ViaMain: true},
 	} {
 		nt, cl, err := runIdent(c)
 		st.Record(identHash(c), nt, cl, vlib.SampleOf(c))
